@@ -67,10 +67,11 @@ Qed.
 Definition reach (A : bmat) (n i j : nat) : Prop :=
   exists p, length p + 1 <= Nat.max n 1 /\ chain A i p j.
 
-Lemma n_hop_inv m nodal n sl o H :
-  n_hop m nodal n sl o = Some H ->
+Lemma n_hop_inv m nodal n sl o zd H :
+  n_hop m nodal n sl o zd = Some H ->
   exists A, adjacency m nodal (if nodal then o else false) = Some A /\
-            H = (if sl then b2zmat (n_hop_bool A n) else minus_eye (n_hop_bool A n)).
+            H = (if sl then b2zmat (n_hop_bool A n)
+                 else if zd then zero_diag (n_hop_bool A n) else minus_eye (n_hop_bool A n)).
 Proof.
   unfold n_hop. destruct (adjacency m nodal _) as [A|]; [|discriminate].
   simpl. intros E. inversion E. exists A. destruct sl; auto.
@@ -81,9 +82,9 @@ Proof. destruct b; simpl; split; intros; try reflexivity; try discriminate; lia.
 Lemma b2z_0 b : b2z b = 0%Z <-> b = false.
 Proof. destruct b; simpl; split; intros; try reflexivity; try discriminate; lia. Qed.
 
-Lemma n_hop_self_loop_spec m nodal n o A H :
+Lemma n_hop_self_loop_spec m nodal n o zd A H :
   adjacency m nodal (if nodal then o else false) = Some A ->
-  n_hop m nodal n true o = Some H ->
+  n_hop m nodal n true o zd = Some H ->
   znr H = bnr A /\ znc H = bnr A /\
   forall i j, i < bnr A -> j < bnr A ->
     (zentry H i j = 1%Z <-> reach A n i j) /\ (zentry H i j = 0%Z <-> ~ reach A n i j).
@@ -100,7 +101,7 @@ Qed.
 
 Lemma n_hop_no_self_loop_spec m nodal n o A H :
   adjacency m nodal (if nodal then o else false) = Some A ->
-  n_hop m nodal n false o = Some H ->
+  n_hop m nodal n false o false = Some H ->
   znr H = bnr A /\ znc H = bnr A /\
   (forall i j, i < bnr A -> j < bnr A -> i <> j ->
      (zentry H i j = 1%Z <-> reach A n i j) /\ (zentry H i j = 0%Z <-> ~ reach A n i j)) /\
@@ -131,6 +132,33 @@ Proof.
     destruct p as [|v p]; simpl in Hc; [|destruct Hc as [Hc _]]; rewrite Hiso in Hc; discriminate.
 Qed.
 
+(* the repaired variant: 0/1-valued reachability off the diagonal, 0 on it,
+   for every mesh *)
+Lemma n_hop_zero_diag_spec m nodal n o A H :
+  adjacency m nodal (if nodal then o else false) = Some A ->
+  n_hop m nodal n false o true = Some H ->
+  znr H = bnr A /\ znc H = bnr A /\
+  (forall i j, i < bnr A -> j < bnr A -> i <> j ->
+     (zentry H i j = 1%Z <-> reach A n i j) /\ (zentry H i j = 0%Z <-> ~ reach A n i j)) /\
+  (forall i, i < bnr A -> zentry H i i = 0%Z).
+Proof.
+  intros HA HH. apply n_hop_inv in HH. destruct HH as [A' [HA' ->]].
+  rewrite HA in HA'. inversion HA'; subst A'; clear HA'.
+  destruct (adjacency_wf _ _ _ _ HA) as [Hb Hs].
+  destruct (n_hop_bool_shape A n) as [S1 S2].
+  split; [exact S1|]. split; [simpl; rewrite S2; symmetry; exact Hs|].
+  assert (Hz : forall i j, i < bnr A -> j < bnr A ->
+     zentry (zero_diag (n_hop_bool A n)) i j =
+       if Nat.eqb i j then 0%Z else b2z (entry (n_hop_bool A n) i j)).
+  { intros i j Hi Hj. apply zentry_zero_diag; rewrite ?S1, ?S2; unfold square in Hs; lia. }
+  split.
+  - intros i j Hi Hj Hne. rewrite Hz by assumption.
+    destruct (Nat.eqb_spec i j); [contradiction|].
+    unfold reach. rewrite <- n_hop_bool_reach by assumption.
+    rewrite b2z_1, b2z_0. split; [tauto|]. destruct (entry (n_hop_bool A n) i j); split; congruence.
+  - intros i Hi. rewrite Hz by assumption. now rewrite Nat.eqb_refl.
+Qed.
+
 (* ---- Laplacian ---- *)
 Lemma laplacian_spec m nodal o A L :
   adjacency m nodal o = Some A -> laplacian m nodal o = Some L ->
@@ -149,8 +177,8 @@ Proof.
 Qed.
 
 (* ---- edge gradient ---- *)
-Lemma edge_gradient_spec m nodal o A G :
-  adjacency m nodal o = Some A -> edge_gradient m nodal o = Some G ->
+Lemma edge_gradient_spec m nodal o tot A G :
+  adjacency m nodal o = Some A -> edge_gradient m nodal o tot = Some G ->
   znr G = length (upper_edges A) /\ znc G = bnr A /\
   (forall k, k < znr G ->
      exists r c, nth_error (upper_edges A) k = Some (r, c) /\ r < c /\ entry A r c = true /\
@@ -161,18 +189,33 @@ Lemma edge_gradient_spec m nodal o A G :
        forall k', nth_error (upper_edges A) k' = Some (r, c) -> k' = k).
 Proof.
   unfold edge_gradient. intros HA. rewrite HA.
-  destruct (upper_edges A) eqn:Eu; [discriminate|]. rewrite <- Eu.
-  intros E. inversion E; subst G; clear E.
-  destruct (adjacency_wf _ _ _ _ HA) as [Hb Hs].
-  split; [reflexivity|]. split; [reflexivity|]. split.
-  - intros k Hk. now apply edge_gradient_row.
-  - intros r c. now apply edge_gradient_edge.
+  assert (X : Some (edge_gradient_of A) = Some G ->
+    znr G = length (upper_edges A) /\ znc G = bnr A /\
+    (forall k, k < znr G ->
+       exists r c, nth_error (upper_edges A) k = Some (r, c) /\ r < c /\ entry A r c = true /\
+         forall v, v < bnr A ->
+           zentry G k v = if Nat.eqb v r then 1%Z else if Nat.eqb v c then (-1)%Z else 0%Z) /\
+    (forall r c, entry A r c = true -> r < c ->
+       exists k, nth_error (upper_edges A) k = Some (r, c) /\
+         forall k', nth_error (upper_edges A) k' = Some (r, c) -> k' = k)).
+  { intros E. inversion E; subst G; clear E.
+    destruct (adjacency_wf _ _ _ _ HA) as [Hb Hs].
+    split; [reflexivity|]. split; [reflexivity|]. split.
+    - intros k Hk. now apply edge_gradient_row.
+    - intros r c. now apply edge_gradient_edge. }
+  destruct tot; [exact X|].
+  intros E. apply X. destruct (upper_edges A); [discriminate|exact E].
 Qed.
+
+(* the repaired variant is defined on every graph *)
+Lemma edge_gradient_total m nodal o A :
+  adjacency m nodal o = Some A -> edge_gradient m nodal o true = Some (edge_gradient_of A).
+Proof. unfold edge_gradient. now intros ->. Qed.
 
 (* the graph has no edge r < c exactly when the code raises *)
 Lemma edge_gradient_none m nodal o A :
   adjacency m nodal o = Some A ->
-  (edge_gradient m nodal o = None <-> forall r c, entry A r c = true -> ~ r < c).
+  (edge_gradient m nodal o false = None <-> forall r c, entry A r c = true -> ~ r < c).
 Proof.
   unfold edge_gradient. intros HA. rewrite HA.
   destruct (adjacency_wf _ _ _ _ HA) as [Hb Hs]. split.
@@ -185,24 +228,26 @@ Proof.
 Qed.
 
 (* ---- e2v ---- *)
-Lemma e2v_spec m nodal sl A E :
-  adjacency m nodal false = Some A -> e2v m nodal sl = Some E ->
-  znr E = bnr A /\ znc E = length (e2v_edges A sl) /\
-  NoDup (e2v_edges A sl) /\
+Lemma e2v_spec m nodal sl st A E :
+  adjacency m nodal false = Some A -> e2v m nodal sl st = Some E ->
+  znr E = bnr A /\ znc E = length (e2v_edges A sl st) /\
+  NoDup (e2v_edges A sl st) /\
   (forall k, k < znc E ->
-     exists r c, nth_error (e2v_edges A sl) k = Some (r, c) /\
+     exists r c, nth_error (e2v_edges A sl st) k = Some (r, c) /\
        forall v, v < bnr A -> zentry E v k = if Nat.eqb v r then 1%Z else 0%Z) /\
-  (forall r c, In (r, c) (e2v_edges A sl) <->
+  (forall r c, In (r, c) (e2v_edges A sl st) <->
      r < bnr A /\ c < bnr A /\
      if sl then entry A r c = true
+     else if st then r <> c /\ entry A r c = true
      else (r <> c /\ entry A r c = true) \/ (r = c /\ entry A r r = false)).
 Proof.
   unfold e2v. intros HA. rewrite HA. simpl. intros X. inversion X; subst E; clear X.
   destruct (adjacency_wf _ _ _ _ HA) as [Hb Hs]. unfold square in Hs.
-  destruct (e2v_shape A sl) as [S1 S2].
+  destruct (e2v_shape A sl st) as [S1 S2].
   split; [exact S1|]. split; [exact S2|]. split; [apply NoDup_e2v_edges|]. split.
   - intros k Hk. rewrite S2 in Hk. now apply e2v_column.
-  - intros r c. destruct sl.
+  - intros r c. destruct sl; [|destruct st].
     + rewrite in_e2v_edges_loop. rewrite <- Hs. tauto.
+    + rewrite in_e2v_edges_strict. rewrite <- Hs. tauto.
     + rewrite in_e2v_edges_noloop. rewrite <- Hs. tauto.
 Qed.
